@@ -55,3 +55,20 @@ pub(crate) fn check<S: AsRef<str>>(fid: S) -> Result<(), RedoError> {
         Ok(())
     }
 }
+
+/// Probes used by an external verification harness (feature `zombiezen_redo_rs_verif`).
+#[cfg(feature = "zombiezen_redo_rs_verif")]
+pub mod verif_hooks {
+    /// Start from an empty set of held items, `add` each of `held` in order, then report
+    /// whether `check(query)` refuses (`true` = cyclic dependency reported).
+    /// Mutates the process environment: call from a single-threaded probe only.
+    pub fn cycles_probe(held: &[&str], query: &str) -> bool {
+        std::env::remove_var(super::ENV_CYCLES);
+        for h in held {
+            super::add(*h);
+        }
+        let refused = super::check(query).is_err();
+        std::env::remove_var(super::ENV_CYCLES);
+        refused
+    }
+}
